@@ -337,29 +337,27 @@ SPELL = {
     "URL": ["http://x.org", "https://x.org/p"],
 }
 
-# longest match first: source text -> atom of the machine
-VOCAB = [
-    ("[http://x.org w]", "magicE"), ("{{t\n|a}}", "magicT"), ("{{t}}", "magicT"), ("{{{1}}}", "magicA"), ("[[L]]", "magicL"),
-    ("http://x.org", "url"), ("__NOTOC__", "__NOTOC__"),
-    ("<span class=\"c\">", "<span>"), ("<span/>", "<span>"), ("<span>", "<span>"), ("</span>", "</span>"),
-    ("<div>", "<div>"), ("</div>", "</div>"), ("<br>", "<br>"), ("</br>", "</br>"), ("<ref>", "<ref>"), ("</ref>", "</ref>"),
-    ("<ul>", "<ul>"), ("</ul>", "</ul>"), ("<li>", "<li>"), ("</li>", "</li>"), ("<pre>", "<pre>"), ("</pre>", "</pre>"),
-    ("<foo>", "<foo>"), ("</foo>", "</foo>"),
-    ("----", "----"), ("'''", "'''"), ("''", "''"), ("a=b", "a=b"), ("=b", "=b"), (" ", "SP"), ("\n", "NL"), ("x", "nowiki"),
-]
-VOCAB_RE = re.compile("|".join(re.escape(k) for k, _ in VOCAB) + "|.", re.S)
-VOCAB_MAP = dict(VOCAB)
+# atom of the machine -> the source text it stands for (primary spellings); other atoms are literal
+ATOM_TEXT = {"SP": " ", "NL": "\n", "magicT": "{{t}}", "magicTN": "{{t\n|a}}", "magicA": "{{{1}}}", "magicL": "[[L]]",
+             "magicE": "[http://x.org w]", "nowiki": "x", "url": "http://x.org"}
 
 
-def atoms_vocab(s: str) -> list:
-    return [VOCAB_MAP.get(m.group(0), m.group(0)) for m in VOCAB_RE.finditer(s)]
+def model_text(t):
+    """Machine tree (strings as atom lists) -> the same tree with strings as source text."""
+    if "s" in t:
+        return {"s": "".join(ATOM_TEXT.get(a, a) for a in t["s"])}
+    d = {"kind": t["kind"], "sarg": t["sarg"], "largs": [[model_text(c) for c in a] for a in t["largs"]],
+         "attrs": t["attrs"], "children": [model_text(c) for c in t["children"]]}
+    if "def" in t:
+        d["def"] = [model_text(c) for c in t["def"]]
+    return d
 
 
 def dump_model(node, top=True) -> dict:
     from wikitextprocessor.parser import WikiNode
 
     def lst(l):
-        return [{"s": atoms_vocab(c)} if isinstance(c, str) else dump_model(c, False) for c in l if isinstance(c, (str, WikiNode))]
+        return [{"s": c} if isinstance(c, str) else dump_model(c, False) for c in l if isinstance(c, (str, WikiNode))]
 
     k = node.kind.name
     d = {
